@@ -490,6 +490,10 @@ class AttributeCollection(MutableMapping[int, Attribute]):
         # handle the attribute if we know it
         if Attribute.registered(aid, flag):
             if length == 0 and kls and not kls.VALID_ZERO:
+                if aid in (Attribute.CODE.MP_REACH_NLRI, Attribute.CODE.MP_UNREACH_NLRI):
+                    # RFC 7606 section 5.3: treat-as-withdraw needs the routes, and they are IN this attribute.
+                    # Marked and skipped, nothing was withdrawn and the session went on with the stale routes.
+                    raise Notify(3, 5, 'MP_REACH_NLRI or MP_UNREACH_NLRI of length zero')
                 self.add(TreatAsWithdraw(aid))
                 return left
 
@@ -528,6 +532,9 @@ class AttributeCollection(MutableMapping[int, Attribute]):
 
         # if we know the attribute but the flag is not what the RFC says.
         if aid in Attribute.attributes_known:
+            if aid in (Attribute.CODE.MP_REACH_NLRI, Attribute.CODE.MP_UNREACH_NLRI):
+                # same as the zero length above: the routes to withdraw are in the attribute which is refused
+                raise Notify(3, 4, 'MP_REACH_NLRI or MP_UNREACH_NLRI with attribute flags 0x{:02X}'.format(flag))
             if kls and kls.TREAT_AS_WITHDRAW:
                 log.debug(
                     lambda: 'invalid flag for attribute {} (flag 0x{:02X}, aid 0x{:02X}) treat as withdraw'.format(
